@@ -33,6 +33,10 @@ type Verdict struct {
 	Unconstrained int      `json:"unconstrained,omitempty"`
 	Notes         []string `json:"notes,omitempty"`
 	LagMs         int64    `json:"lag_ms,omitempty"`
+	// Certain marks a violation that is a directly observed safety fact (two survivors of a race, a byte that differs,
+	// a record that does not parse): it does not depend on a deadline, so it is reported even when the schedule that
+	// produced it does not recur on replay.
+	Certain bool `json:"certain,omitempty"`
 }
 
 func OK(nontrivial bool, labels ...string) Verdict {
@@ -41,6 +45,13 @@ func OK(nontrivial bool, labels ...string) Verdict {
 
 func Violation(clause, sig, format string, a ...interface{}) Verdict {
 	return Verdict{Status: "violation", Clause: clause, Sig: sig, Detail: fmt.Sprintf(format, a...)}
+}
+
+// CertainViolation is a violation whose evidence is a directly observed fact rather than a missed deadline.
+func CertainViolation(clause, sig, format string, a ...interface{}) Verdict {
+	v := Violation(clause, sig, format, a...)
+	v.Certain = true
+	return v
 }
 
 func Inconclusive(format string, a ...interface{}) Verdict {
